@@ -769,6 +769,19 @@
 			} }
 			let mut map_names = BTreeMap::new();
 			for c in mapped.classes.values() { if let (Ok((s, _)), Some(j)) = (two(&c.info.names), &c.javadoc) { map_names.insert(j.0.clone(), s); } }
+			// a table is a set of rows: the same rows in the opposite order (inner nests before their enclosing nests) must give the mappings the same names
+			{
+				let rev: Vec<MNest> = ns.iter().rev().cloned().collect();
+				match run(|| apply_nests_to_mappings(real_m.clone(), &table(&rev))) {
+					Out::Ok(r) => {
+						let mut rev_names = BTreeMap::new();
+						for c in r.classes.values() { if let (Ok((s, _)), Some(j)) = (two(&c.info.names), &c.javadoc) { rev_names.insert(j.0.clone(), s); } }
+						if rev_names != map_names { t.fail(input.clone(), &format!("apply_nests_to_mappings depends on the order of the rows: {map_names:?} with the rows as listed, {rev_names:?} with the rows reversed")); }
+					},
+					Out::Err(e) => t.fail(input.clone(), &format!("apply_nests_to_mappings with the rows reversed returned Err({e})")),
+					Out::Panic => t.fail(input.clone(), "apply_nests_to_mappings with the rows reversed panicked"),
+				}
+			}
 			for c in classes.iter().map(|c| c.name.clone()).chain([M.to_owned()]) {
 				let id = format!("id:{c}");
 				let (a, b) = (jar_names.get(&id), map_names.get(&id));
